@@ -1,5 +1,7 @@
 """Binding of Section.tla / SectionAlgo.tla to real lasio.SectionItems objects."""
+import copy
 import json
+import pickle
 
 import numpy as np
 import random
@@ -184,6 +186,35 @@ class Real(object):
                 except KeyError:
                     q["las"] = 0
             ks.append(q)
+        # the same lookups on a copy of the section (copy.deepcopy and a pickle round trip in turn): a copy is a section like any
+        # other, with the same case policy; its items are identified by position
+        ck = []
+        self.probes = getattr(self, "probes", 0) + 1
+        try:
+            dup = copy.deepcopy(sec) if self.probes % 2 else pickle.loads(pickle.dumps(sec))
+            pos = {id(x): j for j, x in enumerate(list.__iter__(dup))}
+            orig = [self.ident(x) for x in list.__iter__(sec)]
+            ident2 = lambda x: orig[pos[id(x)]] if id(x) in pos and pos[id(x)] < len(orig) else -2
+            if len(dup) == len(orig):
+                for k in keys:
+                    q = {"k": k, "contains": bool(k in dup)}
+                    try:
+                        q["item"] = ident2(dup[k])
+                    except KeyError:
+                        q["item"] = 0
+                    except Exception:
+                        q["item"] = -3
+                    q["attr"] = -1
+                    if k.isidentifier() and k not in LIST_ATTRS and not k.startswith("_"):
+                        try:
+                            q["attr"] = ident2(getattr(dup, k))
+                        except AttributeError:
+                            q["attr"] = 0
+                        except Exception:
+                            q["attr"] = -3
+                    ck.append(q)
+        except Exception:
+            ck = []                      # whether a section can be copied at all is C17's business, not this clause's
         ints = []
         for i in range(-n - 1, n + 1):
             try:
@@ -197,7 +228,7 @@ class Real(object):
             r = sec[a:b]
             slices.append({"a": a, "b": b, "ids": [self.ident(x) for x in list.__iter__(r)],
                            "cls": type(r).__name__})
-        return {"op": "probe", "exc": "", "keys": ks, "ints": ints, "slices": slices, "post": self.project()}
+        return {"op": "probe", "exc": "", "keys": ks, "ckeys": ck, "ints": ints, "slices": slices, "post": self.project()}
 
 
 def roundtrip_event(real):
